@@ -53,6 +53,10 @@ JudgeC14(rec) ==
           <<(class = "wellformed" /\ f.ok) => (Range(f.ar_names) = {ms[i].name : i \in 1..Len(ms)} /\ Len(f.ar_names) = Len(ms)),
             "index of ar members differs from the archive">>,
           <<(class = "wellformed" /\ f.ok) => TarAgrees(f, d.files), "data tar stream differs from the packaged files">>,
+          \* (the harness writes every ar header with mtime 1433153120, owner 123456, group 654321, mode 37777775: full-width columns)
+          <<(class = "wellformed" /\ f.ok) => \A k \in 1..Len(f.ar_meta) :
+                f.ar_meta[k].mtime = 1433153120 /\ f.ar_meta[k].uid = 123456 /\ f.ar_meta[k].gid = 654321 /\ f.ar_meta[k].mode = "37777775",
+            "the index of ar members records other metadata than the archive's headers">>,
           <<(class = "wellformed" /\ f.ok) => (~rec.overlap.panic /\ rec.overlap.ok /\ TarAgrees([tar |-> rec.overlap.tar1], d.files)
                                                /\ TarAgrees([tar |-> rec.overlap.tar2], d.files)),
             "two loads of the same bytes that are open at the same time do not both deliver the packaged files">> >>)
@@ -96,7 +100,12 @@ JudgeC16(rec) ==
           <<mustVerify => \A k \in 1..Len(rec.reps) : rec.reps[k].ok /\ rec.reps[k].sig_ok /\ rec.reps[k].signer = theSig.key,
             "valid signature by a keyring key over the loaded members was not accepted">>,
           <<(unique /\ ShapeClass(ms) = "wellformed" /\ rec.first.ok /\ rec.first.sig.ok) => ControlAgrees(rec.first, ms[TheOne(c)].fields),
-            "loaded control data is not that of the signed control member">> >>)
+            "loaded control data is not that of the signed control member">>,
+          <<(unique /\ ShapeClass(ms) = "wellformed" /\ flipped = {}) => \A k \in 1..Len(rec.reps) :
+                (rec.reps[k].ok /\ rec.reps[k].sig_ok) => rec.reps[k].pkg = FieldText(ms[TheOne(c)].fields, <<80, 97, 99, 107, 97, 103, 101>>),
+            "a load whose signature verified exposes another package's control data than the signed control member's">>,
+          <<(unique /\ ShapeClass(ms) = "wellformed" /\ rec.first.ok /\ rec.first.sig.ok) => TarAgrees(rec.first, ms[TheOne(d)].files),
+            "loaded payload is not that of the signed data member">> >>)
 
 \* ---- C15 (.deb level): arbitrary bytes --------------------------------------
 JudgeDebRaw(rec) ==
